@@ -127,6 +127,14 @@ theorem zeroleft_eq (nx ny : Int) (u v : Rat) (hx : 1 ≤ nx) (hy : 1 ≤ ny) :
 /-- the Galactic sampler indexes exactly like the sky sampler (after its rotation) -/
 theorem galactic_eq_sky (nx ny : Int) (l b : Rat) : galactic nx ny l b = sky nx ny l b := rfl
 
+/-- the ecliptic sampler indexes exactly like the zero-at-the-right-edge sky sampler (after its rotation): its
+`lon % 2π − π` with origin `π − ½/dx` is the zero-right layout written with a half-turn shift on both sides -/
+theorem ecliptic_eq_zeroright (nx ny : Int) (l b : Rat) (hx : 1 ≤ nx) : ecliptic nx ny l b = zeroright nx ny l b := by
+  have hx' := ne_zero_of_pos nx hx
+  unfold ecliptic zeroright
+  simp only
+  congr 3 <;> grind
+
 /-- containment + range for a pair of positions -/
 def InCell (n : Int) (i : Int) (t : Rat) : Prop := 0 ≤ i ∧ i < n ∧ (i : Rat) ≤ t ∧ t ≤ (i : Rat) + 1
 
